@@ -1132,7 +1132,7 @@ func main() {
 			rep.Histogram["int64_wrap_domain"]++
 		}
 		if n > 12 {
-			rep.Histogram["beyond_insertion_sort_n13_24"]++
+			rep.Histogram["beyond_insertion_sort_n13plus"]++
 		}
 		if p.MaxIn > 1000 || p.MaxIn < -1 {
 			rep.Histogram["maxinputs_extreme"]++
@@ -1185,7 +1185,7 @@ func main() {
 			rep.Histogram[fam+"_outside_domain"]++
 		}
 		if n > 12 {
-			rep.Histogram["beyond_insertion_sort_n13_24"]++
+			rep.Histogram["beyond_insertion_sort_n13plus"]++
 		}
 	}
 	report(vs)
